@@ -225,18 +225,6 @@ func cloneModel(m *storeModel) *storeModel {
 }
 
 func c17Property(t *rapid.T) {
-	c := c17()
-	dir := vk.Scratch("c17-")
-	defer os.RemoveAll(dir)
-	live := filepath.Join(dir, "live")
-	id := quickfix.SessionID{BeginString: "FIX.4.4", SenderCompID: "S", TargetCompID: "T"}
-	factory := storekit.FileFactory(live, true, id)
-	st, err := factory.Create(id)
-	if err != nil {
-		t.Fatalf("harness: %v", err)
-	}
-	defer func() { file.VerifCrashHook = nil; _ = st.Close() }()
-	model := newStoreModel()
 	nOps := rapid.IntRange(1, 15).Draw(t, "nops")
 	var ops []c17op
 	for i := 0; i < nOps; i++ {
@@ -257,6 +245,23 @@ func c17Property(t *rapid.T) {
 	if ops[victim].kind == "reopen" {
 		ops[victim].kind = "refresh"
 	}
+	runCrashCase(t, ops, victim)
+}
+
+// runCrashCase applies ops[0..victim-1], interrupts ops[victim] at every crash image and checks each.
+func runCrashCase(t vk.TB, ops []c17op, victim int) {
+	c := c17()
+	dir := vk.Scratch("c17-")
+	defer os.RemoveAll(dir)
+	live := filepath.Join(dir, "live")
+	id := quickfix.SessionID{BeginString: "FIX.4.4", SenderCompID: "S", TargetCompID: "T"}
+	factory := storekit.FileFactory(live, true, id)
+	st, err := factory.Create(id)
+	if err != nil {
+		t.Fatalf("harness: %v", err)
+	}
+	defer func() { file.VerifCrashHook = nil; _ = st.Close() }()
+	model := newStoreModel()
 	// durability is tracked over the whole history: a file's durable content is what it held at
 	// its last fsync (files created exist empty; removals are durable)
 	durable := readDir(live)
@@ -498,4 +503,70 @@ func imageClass(img dirState, opName string, before, after *storeModel) string {
 		}
 	}
 	return ""
+}
+
+// recTB records violation signatures instead of failing (used by TestKnown_C17 only).
+type recTB struct{ sigs map[string]bool }
+type recAbort struct{}
+
+func (recAbort) IsVerifAbort() {}
+
+func (r *recTB) Logf(string, ...interface{}) {}
+func (r *recTB) Fatalf(format string, args ...interface{}) {
+	msg := fmt.Sprintf(format, args...)
+	if strings.HasPrefix(msg, "VIOLATION-SIG ") {
+		r.sigs[strings.Fields(msg)[1]] = true
+	} else {
+		r.sigs["harness:"+msg] = true
+	}
+	panic(recAbort{})
+}
+
+// TestKnown_C17 replays fixed minimal histories through the same enumeration and reports, for
+// every listed open finding, whether it still reproduces.
+func TestKnown_C17(t *testing.T) {
+	rec := &recTB{sigs: map[string]bool{}}
+	run := func(ops []c17op, victim int) {
+		defer func() {
+			if r := recover(); r != nil {
+				if _, ok := r.(recAbort); !ok {
+					panic(r)
+				}
+			}
+		}()
+		runCrashCase(rec, ops, victim)
+	}
+	save := func(s string) c17op { return c17op{kind: "saveincr", msg: []byte(s)} }
+	nine := []c17op{}
+	for i := 0; i < 8; i++ {
+		nine = append(nine, save(fmt.Sprintf("m=%d", i+1)), c17op{kind: "incrtarget"})
+	}
+	run(append(append([]c17op{}, nine...), save("m=9")), 16)               // sender 9 -> 10 rewrites two digits
+	run(append(append([]c17op{}, nine...), c17op{kind: "incrtarget"}), 16) // target 9 -> 10
+	run(append(append([]c17op{}, nine...), c17op{kind: "reset"}), 16)      // reset after nine saves
+	run([]c17op{save("a=1"), save("b=22"), save("c=333")}, 2)              // plain append
+	c := c17()
+	seen := map[string]bool{}
+	for k := range rec.sigs {
+		seen[k] = true
+	}
+	for k, n := range c.Known {
+		if n > 0 {
+			seen[k] = true
+		}
+	}
+	for _, f := range vk.KnownFindings() {
+		if f.Property == "C17" && f.Status == "open" {
+			yn := "no"
+			if seen[f.Signature] {
+				yn = "yes"
+			}
+			fmt.Printf("KNOWN-REPRO %s %s\n", f.Signature, yn)
+		}
+	}
+	for k := range rec.sigs {
+		if !vk.IsKnownOpen("C17", k) {
+			fmt.Printf("note: fixed histories also show unlisted signature %s\n", k)
+		}
+	}
 }
